@@ -54,6 +54,8 @@ type jScenario struct {
 	Sent        []jBcast    `json:"sent"`
 	Drained     bool        `json:"drained"`
 	Err         string      `json:"err,omitempty"`
+	Map         string      `json:"map"` // identity | offset | permuted: the node -> party map of the scenario
+	MapTable    [][2]uint16 `json:"map_table,omitempty"`
 }
 
 type flight struct {
@@ -71,6 +73,7 @@ type rbcWorld struct {
 	sc      *jScenario
 	pool    []flight
 	hashes  map[string]string
+	inv     map[uint16]uint16 // party -> node of the scenario's membership map (nil: identity)
 }
 
 func identityMembership(universe []uint16) map[UniversalID]PartyID {
@@ -81,15 +84,70 @@ func identityMembership(universe []uint16) map[UniversalID]PartyID {
 	return m
 }
 
+// membership maps of the RBC scenarios: the node -> party translation sits between reliable broadcast and the backend, so the
+// scenarios run over the identity, an offset and a permuted (injective) map; what the backend is handed is translated back
+// to node identifiers before it is compared with the model and judged by the monitors
+func scenarioMembership(kind string, id int, universe []uint16) (map[UniversalID]PartyID, map[uint16]uint16) {
+	m := map[UniversalID]PartyID{}
+	inv := map[uint16]uint16{}
+	r := newPRNG(uint64(id)*2654435761 + 17) // the table is a function of (kind, scenario id, universe): replayable
+	switch kind {
+	case "offset":
+		k := uint16(1 + r.intn(60000))
+		for _, u := range universe {
+			m[UniversalID(u)] = PartyID(u + k)
+		}
+	case "permuted":
+		perm := append([]uint16(nil), universe...)
+		for i := len(perm) - 1; i > 0; i-- {
+			j := r.intn(i + 1)
+			perm[i], perm[j] = perm[j], perm[i]
+		}
+		for i, u := range universe {
+			m[UniversalID(u)] = PartyID(perm[i])
+		}
+	default:
+		return identityMembership(universe), nil
+	}
+	for u, p := range m {
+		inv[uint16(p)] = uint16(u)
+	}
+	return m, inv
+}
+
+// forcedMapKind: set by the replay to the map kind recorded in the scenario (consumed by the next newRBCWorld)
+var forcedMapKind string
+var forcedMapTable [][2]uint16
+
 func newRBCWorld(r *prng, id int, members, honest, universe []uint16, mode string, acceptEmpty bool) (*rbcWorld, error) {
 	w := &rbcWorld{r: r, members: members, honest: map[uint16]*party{}, sess: map[uint16]*session{}, hashes: map[string]string{}}
+	mapKind := forcedMapKind
+	forcedMapKind = ""
+	if mapKind == "" {
+		mapKind = []string{"offset", "permuted", "identity", "identity"}[r.intn(4)]
+	}
+	mm, inv := scenarioMembership(mapKind, id, universe)
+	if forcedMapTable != nil {
+		mm, inv = map[UniversalID]PartyID{}, map[uint16]uint16{}
+		for _, e := range forcedMapTable {
+			mm[UniversalID(e[0])] = PartyID(e[1])
+			inv[e[1]] = e[0]
+		}
+		forcedMapTable = nil
+	}
+	w.inv = inv
 	w.sc = &jScenario{Kind: "rbc", ID: id, Mode: mode, N: len(members), Members: members, Honest: honest, AcceptEmpty: acceptEmpty,
-		Events: []jEvent{}, Sent: []jBcast{}, Hash: [][2]string{}}
+		Events: []jEvent{}, Sent: []jBcast{}, Hash: [][2]string{}, Map: mapKind}
+	if mapKind != "identity" {
+		for _, u := range universe {
+			w.sc.MapTable = append(w.sc.MapTable, [2]uint16{u, uint16(mm[UniversalID(u)])})
+		}
+	}
 	w.noteHash(nil)
 	sorted := append([]uint16(nil), members...)
 	sort.Slice(sorted, func(i, j int) bool { return sorted[i] < sorted[j] })
 	for _, h := range honest {
-		p := newParty(h, len(members)-1, identityMembership(universe), acceptEmpty)
+		p := newParty(h, len(members)-1, mm, acceptEmpty)
 		var s *session
 		var err error
 		if mode == "sign" {
@@ -131,7 +189,15 @@ func (w *rbcWorld) deliver(f flight) {
 	ev := jEvent{H: f.to, From: f.from, Data: hex.EncodeToString(f.data), Panic: panicked, PanicV: pv, Kind: f.kind, OnMsg: []jOnMsg{}, Acks: []jAck{}}
 	for _, be := range p.backends {
 		for _, o := range be.takeOnMsg() {
-			ev.OnMsg = append(ev.OnMsg, jOnMsg{P: hex.EncodeToString(o.Payload), From: o.From, B: o.Bcast})
+			from := o.From
+			if w.inv != nil {
+				if u, ok := w.inv[from]; ok {
+					from = u
+				} else {
+					from = 0xfffe // attributed to a party that no node of the universe represents
+				}
+			}
+			ev.OnMsg = append(ev.OnMsg, jOnMsg{P: hex.EncodeToString(o.Payload), From: from, B: o.Bcast})
 		}
 	}
 	for _, s := range p.takeSends() {
@@ -335,12 +401,18 @@ func runRBCAdversarial(r *prng, id int, script []flight) *jScenario {
 
 func runRBCFaultFree(r *prng, id int) *jScenario {
 	n := 2 + r.intn(4)
-	members := r.distinctIDs(n, r.chance(1, 3))
+	// now and then the configured membership is larger than the session: spare nodes that take no part
+	spare := 0
+	if r.chance(1, 3) {
+		spare = 1 + r.intn(2)
+	}
+	universe := r.distinctIDs(n+spare, r.chance(1, 3))
+	members := append([]uint16(nil), universe[:n]...)
 	mode := "sign"
 	if r.chance(1, 2) {
 		mode = "dkg"
 	}
-	w, err := newRBCWorld(r, id, members, members, members, mode, false)
+	w, err := newRBCWorld(r, id, members, members, universe, mode, false)
 	if err != nil {
 		return &jScenario{Kind: "rbc", ID: id, Err: err.Error()}
 	}
